@@ -15,8 +15,12 @@ class Watchdog(BaseException):
     """BaseException so that `except Exception` / returns.safe inside the code under test cannot swallow it"""
 
 
+_ARMED = False
+
+
 def _alarm(*_):
-    raise Watchdog()
+    if _ARMED:
+        raise Watchdog()
 
 
 class Ctx:
@@ -86,30 +90,52 @@ class Ctx:
     # -- guarded call -----------------------------------------------------
     def guarded(self, fn, *a, timeout=10, **kw):
         """returns ('ok', value) | ('exc', exception) | ('watchdog', None). Nest-safe: an inner call never
-        extends an outer deadline, and the outer alarm is re-armed when the inner call returns."""
+        extends an outer deadline, and the outer alarm is re-armed when the inner call returns. The alarm re-fires every
+        0.5 s (code under test may swallow it); stragglers that arrive while a verdict is already being produced are
+        absorbed here and never escape."""
+        global _ARMED
         now = time.time()
         deadline = now + timeout
         if self._deadlines:
             deadline = min(deadline, self._deadlines[-1])
         self._deadlines.append(deadline)
-        signal.setitimer(signal.ITIMER_REAL, max(0.01, deadline - now), 0.5)  # re-fires if a handler swallowed it
+        depth = len(self._deadlines)
+        result = None
         try:
-            v = fn(*a, **kw)
-            return "ok", v
-        except Watchdog:
-            if len(self._deadlines) > 1 and time.time() >= self._deadlines[-2] - 0.005:
-                raise  # the outer deadline expired: let the outer frame report it
-            return "watchdog", None
-        except Exception as e:
-            if "Watchdog" in repr(e):  # alarm raised inside a ctypes callback surfaces as ctypes.ArgumentError
-                return "watchdog", None
-            self.last_exc = e
-            return "exc", e
-        finally:
-            signal.setitimer(signal.ITIMER_REAL, 0)
-            self._deadlines.pop()
-            if self._deadlines:
-                signal.setitimer(signal.ITIMER_REAL, max(0.01, self._deadlines[-1] - time.time()), 0.5)
+            try:
+                _ARMED = True
+                signal.setitimer(signal.ITIMER_REAL, max(0.01, deadline - now), 0.5)
+                v = fn(*a, **kw)
+                _ARMED = False
+                result = ("ok", v)
+            except Watchdog:
+                _ARMED = False
+                result = ("watchdog", None)
+            except Exception as e:
+                _ARMED = False
+                if "Watchdog" in repr(e):  # alarm raised inside a ctypes callback surfaces as ctypes.ArgumentError
+                    result = ("watchdog", None)
+                else:
+                    self.last_exc = e
+                    result = ("exc", e)
+        except Watchdog:          # a re-fired alarm arrived while the verdict was being produced
+            _ARMED = False
+            result = result or ("watchdog", None)
+        for _ in range(3):        # cleanup must complete even if one more straggler arrives
+            try:
+                _ARMED = False
+                signal.setitimer(signal.ITIMER_REAL, 0)
+                del self._deadlines[depth - 1:]
+                break
+            except Watchdog:
+                continue
+        if self._deadlines:
+            if result[0] == "watchdog" and time.time() >= self._deadlines[-1] - 0.005:
+                _ARMED = True
+                raise Watchdog()   # the outer deadline expired as well: let the outer frame report it
+            _ARMED = True
+            signal.setitimer(signal.ITIMER_REAL, max(0.01, self._deadlines[-1] - time.time()), 0.5)
+        return result
 
     # -- output -----------------------------------------------------------
     def dump(self, complete, path=None):
